@@ -18,6 +18,7 @@ func init() {
 			"percent-encode sets, ASCII classes, forbidden host/domain code points, special schemes, dot-segment literals, whitespace sets equal the standard's (TAB-*)",
 			"which encode set each component writer uses (TAB-component); strconv never sees unvalidated text; exactly one bracket pair is stripped (FLOW-strconv, FLOW-brackets)",
 			"the IPv6 serializer prints the standard's pieces, separators and '::' for each of the 256 zero/non-zero patterns of the pieces (TAB-ipv6ser)",
+			"after reading the text the IPv6 parser fails / arranges the pieces around '::' / adds the brackets as the standard does, in each of its 45 end states (TAB-ipv6place)",
 		},
 		NotDecided:  []string{"per-character behaviour inside a state beyond these facts", "IPv4/IPv6 arithmetic, the hex text of a piece", "path shortening details and drive-letter quirks", "IDNA mapping"},
 		Assumptions: append([]string{"/verif/spec/basecopies.json, failpoints.json, sets.json are faithful transcriptions of the standard's snapshot"}, commonAssumptions...)})
@@ -57,9 +58,9 @@ func init() {
 		Assumptions: commonAssumptions})
 	describe(&PropertyDoc{ID: "C08",
 		Explanation: "Structural facts of IPv6 host acceptance.",
-		Decides:     []string{"exactly the first and last byte are removed from a host tested to start with '[' and end with ']' (FLOW-brackets)", "every validation error of the IPv6 parser is an aborting failure; the 13 failure points are the standard's (SM-failpoints)", "multiply-and-add accumulators of the address parser are bounded inside their loops: they cannot wrap (FLOW-accum)", "hex digit value functions are exact on 0-9, a-f, A-F (TAB-hexval)", "the serializer uses a piece only to compare it with 0 and to format it in base 16; for each of the 256 zero/non-zero patterns its output has the standard's pieces, separators and '::' (TAB-ipv6ser, abstract interpretation)"},
-		NotDecided:  []string{"piece placement by the parser", "that the hex text of a piece is minimal lower case (strconv's contract)"},
-		Assumptions: commonAssumptions})
+		Decides:     []string{"exactly the first and last byte are removed from a host tested to start with '[' and end with ']' (FLOW-brackets)", "every validation error of the IPv6 parser is an aborting failure; the 13 failure points are the standard's (SM-failpoints)", "multiply-and-add accumulators of the address parser are bounded inside their loops: they cannot wrap (FLOW-accum)", "hex digit value functions are exact on 0-9, a-f, A-F (TAB-hexval)", "the serializer uses a piece only to compare it with 0 and to format it in base 16; for each of the 256 zero/non-zero patterns its output has the standard's pieces, separators and '::' (TAB-ipv6ser, abstract interpretation)", "the part of the parser behind its last read of the text: too-few-pieces failure, placement of the pieces around '::', brackets — for each of the 45 (pieces read, place of '::') states, pieces as opaque tokens (TAB-ipv6place, abstract interpretation)"},
+		NotDecided:  []string{"the reading loop's per-character behaviour beyond its failure points", "that the hex text of a piece is minimal lower case (strconv's contract)"},
+		Assumptions: append([]string{"TAB-ipv6place: at the end of the reading loop the pieces from index pieceIdx on are still zero and 0 ≤ pieceIdx ≤ 8 (reviewed; the rule itself checks that compress is only ever set to the piece count or the one 'none' constant)"}, commonAssumptions...)})
 	describe(&PropertyDoc{ID: "C09",
 		Explanation: "Order and coverage of the domain pipeline.",
 		Decides:     []string{"percent-decoding precedes ToASCII; the forbidden-domain scan runs over the ToASCII result on every non-lax success path and before the IPv4 test (FLOW-hostpipe)", "the forbidden-domain set is at least the standard's (TAB-forbidden)", "every IDNA conversion goes through the module's lookup profile built with MapForLookup (FLOW-idna)"},
